@@ -108,10 +108,11 @@ pub fn run_writer(prog: &Value, dev: &Dev, t: &mut TraceOut) -> WriteOutcome {
         }
         is_ok(res)
     };
+    let stop_on_err = prog["stop_on_err"].as_bool().unwrap_or(false);
     for step in steps.iter().skip(1) {
         call += 1;
         dev.set_call(call);
-        if out.panicked {
+        if out.panicked || (stop_on_err && !out.all_ok) {
             break;
         }
         match step["op"].as_str().unwrap_or("") {
@@ -240,9 +241,11 @@ pub fn run_writer(prog: &Value, dev: &Dev, t: &mut TraceOut) -> WriteOutcome {
                 let mut dead = false;
                 for p in points {
                     let tr = point_tr(&p);
+                    let f0 = dev.faulted();
                     let r = catch(|| pcw.add_point(p));
+                    let fic = dev.faulted() && !f0;
                     match r {
-                        Ok(Ok(())) => {
+                        Ok(Ok(())) if !fic => {
                             batch.push(tr);
                             if batch.len() >= 4096 {
                                 t.ev(json!({"ev":"pc_points","pts":batch,"res":ok(json!(0))}));
@@ -251,11 +254,11 @@ pub fn run_writer(prog: &Value, dev: &Dev, t: &mut TraceOut) -> WriteOutcome {
                         }
                         other => {
                             if !batch.is_empty() {
-                                t.ev(json!({"ev":"pc_points","pts":batch,"res":ok(json!(0))}));
+                                t.ev(json!({"ev":"pc_points","pts":batch,"res":ok(json!(0)),"fic":0}));
                                 batch = Vec::new();
                             }
                             let res = res_unit(other);
-                            t.ev(json!({"ev":"pc_point","vals":tr,"res":res}));
+                            t.ev(json!({"ev":"pc_point","vals":tr,"res":res,"fic": if fic {1} else {0}}));
                             note(&res, &mut out);
                             if out.panicked {
                                 dead = true;
@@ -419,6 +422,11 @@ fn collect_raw<T: std::io::Read + std::io::Seek>(r: &mut E57Reader<T>, pc: &Poin
 /// Run reader operations on `img`; every operation is one trace event.
 pub fn run_reader(img: &[u8], ops: &[Value], ctx: &ReadCtx, t: &mut TraceOut) {
     let dev = Dev::from_bytes(img.to_vec());
+    run_reader_dev(&dev, ops, ctx, t)
+}
+
+/// same, on a caller-supplied (possibly faulty or chunking) device
+pub fn run_reader_dev(dev: &Dev, ops: &[Value], ctx: &ReadCtx, t: &mut TraceOut) {
     let r = catch(|| E57Reader::new(dev.clone()));
     let mut rd = match r {
         Ok(Ok(r)) => {
@@ -498,6 +506,16 @@ pub fn run_reader(img: &[u8], ops: &[Value], ctx: &ReadCtx, t: &mut TraceOut) {
             "xml" => {
                 let x = rd.xml().as_bytes().to_vec();
                 t.ev(json!({"ev":"r_xml","res":ok(jbytes(&x))}));
+            }
+            "validate_crc" => {
+                let r = catch(|| E57Reader::validate_crc(dev.clone()));
+                let res = match r { Ok(Ok(p)) => ok(json!(p)), Ok(Err(_)) => err(), Err(m) => json!({"panic":m}) };
+                t.ev(json!({"ev":"r_validate_crc","res":res}));
+            }
+            "raw_xml" => {
+                let r = catch(|| E57Reader::raw_xml(dev.clone()));
+                let res = match r { Ok(Ok(b)) => ok(jbytes(&b)), Ok(Err(_)) => err(), Err(m) => json!({"panic":m}) };
+                t.ev(json!({"ev":"r_raw_xml","res":res}));
             }
             _ => {}
         }
